@@ -21,7 +21,7 @@ ASSUMPTIONS = ['line-level landing points; delivery of the async exception insid
                'the child is held at the landing for at most 0.6 s; all timeouts passed to terminate are 5 s (remote_timeout too)']
 SHRINK = 'none'
 TIME_BUDGET = {'quick': 170, 'thorough': 1700}
-REQUIRED = {'quick': {'delivered': 150, 'land:target_try_body': 40, 'land:target_finally': 1, 'land:after_target': 20, 'land:handler': 3, 'idle_persistent': 10, 'terminate_after_own_end': 60, 'control_thread_held': 40, 'scenario:spin_state': 20},
+REQUIRED = {'quick': {'delivered': 150, 'land:target_try_body': 40, 'land:after_target': 20, 'land:handler': 3, 'idle_persistent': 10, 'terminate_after_own_end': 60, 'control_thread_held': 40, 'scenario:spin_state': 20},
             'thorough': {'delivered': 1500, 'land:target_try_body': 300, 'land:target_finally': 5, 'land:after_target': 200, 'land:handler': 30}}
 
 _src = inspect.getsource(vtargets).splitlines()
